@@ -524,7 +524,11 @@ class AsciiRecordWriter(IORecord):
 
     def rwInt(self, val):
         self.numBytes += self._intSize
-        self.data.append(self._intFormat.format(val))
+        text = self._intFormat.format(val)
+        if len(text) > self._intLength:
+            # a ten-digit number with its sign takes the column of the separating blank
+            text = self._intFormat.lstrip().format(val)
+        self.data.append(text.rjust(self._intLength))
         return val
 
     def _formatFloat(self, val):
